@@ -29,7 +29,7 @@ type gapMismatch struct {
 }
 
 var gapProbes = []string{`1`, `5`, `10`, `2`, `"x"`, `true`, `{"a": 1, "b": [true, 1], "abc": "s"}`, `{"a": 1, "b": [true, "q"], "abc": "s"}`, `{"a": 1, "b": [], "zzz": "s"}`,
-	`{"p": 1, "z": 1, "q": "s"}`, `{"p": 1, "z": 1, "q": 2}`, `{"p": 1}`, `[1, "x"]`, `[-1, "x"]`, `[1, ""]`, `[]`, `null`}
+	`{"p": 1, "z": 1, "q": "s"}`, `{"p": 1, "z": 1, "q": 2}`, `{"p": 1}`, `{"ключ": "значение €", "é": "ß"}`, `{"ключ": "я", "é": "日本"}`, `{"ключ": "значение €", "é": "x"}`, `[1, "x"]`, `[-1, "x"]`, `[1, ""]`, `[]`, `null`}
 
 func gapSchema(text string) *jschema.Schema {
 	s := jschema.New("root", text)
